@@ -300,6 +300,17 @@ func (d *Dialer) DialContext(ctx context.Context, urlStr string, requestHeader h
 		}
 	}()
 
+	// A proxy dialer may clear the deadline set when the connection to the
+	// proxy was made (the SOCKS5 dialer does when its own handshake ends).
+	// Apply it again so that the rest of the handshake stays bounded.
+	if proxyURL != nil {
+		if deadline, ok := ctx.Deadline(); ok {
+			if err := netConn.SetDeadline(deadline); err != nil {
+				return nil, nil, err
+			}
+		}
+	}
+
 	// Do TLS handshake over established connection if a proxy exists.
 	if proxyURL != nil && u.Scheme == "https" {
 
